@@ -12,6 +12,7 @@
 package c04
 
 import (
+	"bufio"
 	"bytes"
 	"crypto/sha256"
 	"encoding/hex"
@@ -22,10 +23,12 @@ import (
 	"net/http/httptest"
 	"os"
 	"path/filepath"
+	goruntime "runtime"
 	"sort"
 	"strconv"
 	"strings"
 	"sync"
+	"time"
 
 	"github.com/go-openapi/loads"
 	"github.com/go-openapi/runtime"
@@ -85,6 +88,8 @@ type Arg struct {
 	Seed     int
 	Src      string // reader (runtime.NamedReader, not seekable) | memseek (in-memory, seekable) | osfile (*os.File) | typed (seekable, reports its ContentType)
 	Off      int
+	Fails    bool // the source fails (I/O error) ...
+	FailAt   int  // ... once that many of the remaining bytes have been read
 	// body
 	Body string // JSON text of the value
 }
@@ -95,27 +100,64 @@ type Hdr struct {
 }
 
 type Resp struct {
-	Mode string // responder | plain
-	Code int
-	Hdrs []Hdr
-	Len  int // size of the payload text
-	Seed int
-	None bool // no body at all (responder only)
+	Mode    string // responder | plain
+	Code    int
+	Hdrs    []Hdr
+	Len     int // size of the payload text
+	Seed    int
+	None    bool // no body at all (responder only)
+	Chunks  int  // > 1: the responder writes the body in that many flushed pieces ...
+	PauseUs int  // ... pausing that many microseconds in between
 }
 
+type KV struct{ K, V string }
+
 type Step struct {
+	Op        string
+	Args      []Arg
+	Auth      string // none | apikey | signing
+	Resp      Resp
+	Media     string // media type of the request body ("" = the operation has none)
+	Debug     bool   // Runtime.Debug is on for this call (dumps go to a silent logger)
+	PatStatic []KV   // static query parameters written into the operation's path pattern
+}
+
+// Batch describes the calls of a concurrent case compactly: Count calls of Op, call i with values of its own derived from (Seed, i).
+type Batch struct {
 	Op    string
-	Args  []Arg
-	Auth  string // none | apikey | signing
-	Resp  Resp
-	Media string // media type of the request body ("" = the operation has none)
-	Debug bool   // Runtime.Debug is on for this call (dumps go to a silent logger)
+	Count int
+	Seed  int
 }
 
 type Case struct {
-	API    API
-	Shared bool // served by the long-lived server of this API (single calls); otherwise by a server built for the case
-	Steps  []Step
+	API        API
+	Shared     bool // served by the long-lived server of this API (single calls); otherwise by a server built for the case
+	Steps      []Step
+	BaseStatic []KV // static query parameters written into the Runtime's base path
+	Reuse      bool // Runtime.EnableConnectionReuse()
+	// concurrent cases: the calls (Batch) are made by Conc goroutines at a time through the one Runtime, at GOMAXPROCS Procs
+	Conc  int
+	Procs int
+	Yield bool   // the server is built in debug mode with a logger that yields the processor at every log call
+	Via   string // "" | http: over the wire to the httptest.Server; inproc: served in the calling goroutine
+	Batch Batch
+}
+
+func kvJSON(kvs []KV) []M {
+	out := make([]M, 0, len(kvs))
+	for _, e := range kvs {
+		out = append(out, M{"k": trace.B(e.K), "v": trace.B(e.V)})
+	}
+	return out
+}
+
+func kvFrom(v any) []KV {
+	var out []KV
+	for _, e := range drv.List(v) {
+		m := drv.Map(e)
+		out = append(out, KV{trace.Str(m["k"]), trace.Str(m["v"])})
+	}
+	return out
 }
 
 func (p Param) JSON() M { return M{"name": p.Name, "loc": p.Loc, "kind": p.Kind, "type": p.Type} }
@@ -143,16 +185,21 @@ func (c Case) JSON() M {
 		args := make([]M, 0)
 		for _, a := range st.Args {
 			args = append(args, M{"name": a.Name, "vs": trace.BB(a.Vs), "filename": trace.B(a.FileName), "len": a.Len, "seed": a.Seed,
-				"src": a.Src, "off": a.Off, "body": trace.B(a.Body)})
+				"src": a.Src, "off": a.Off, "fails": a.Fails, "failat": a.FailAt, "body": trace.B(a.Body)})
 		}
 		hdrs := make([]M, 0)
 		for _, h := range st.Resp.Hdrs {
 			hdrs = append(hdrs, M{"k": h.K, "vs": trace.BB(h.Vs)})
 		}
-		steps = append(steps, M{"op": st.Op, "args": args, "auth": st.Auth, "media": st.Media, "debug": st.Debug,
-			"resp": M{"mode": st.Resp.Mode, "code": st.Resp.Code, "hdrs": hdrs, "len": st.Resp.Len, "seed": st.Resp.Seed, "none": st.Resp.None}})
+		steps = append(steps, M{"op": st.Op, "args": args, "auth": st.Auth, "media": st.Media, "debug": st.Debug, "pstatic": kvJSON(st.PatStatic),
+			"resp": M{"mode": st.Resp.Mode, "code": st.Resp.Code, "hdrs": hdrs, "len": st.Resp.Len, "seed": st.Resp.Seed, "none": st.Resp.None,
+				"chunks": st.Resp.Chunks, "pause_us": st.Resp.PauseUs}})
 	}
-	return M{"api": M{"base": c.API.Base, "ops": ops}, "shared": c.Shared, "steps": steps}
+	if c.Batch.Count > 0 {
+		steps = []M{} // derived from the batch description
+	}
+	return M{"api": M{"base": c.API.Base, "ops": ops}, "shared": c.Shared, "steps": steps, "bstatic": kvJSON(c.BaseStatic), "reuse": c.Reuse,
+		"conc": c.Conc, "procs": c.Procs, "yield": c.Yield, "via": c.Via, "batch": M{"op": c.Batch.Op, "count": c.Batch.Count, "seed": c.Batch.Seed}}
 }
 
 func caseFrom(d M) Case {
@@ -185,18 +232,19 @@ func caseFrom(d M) Case {
 	c.Shared = drv.Bool(d["shared"])
 	for _, sx := range drv.List(d["steps"]) {
 		sm := drv.Map(sx)
-		st := Step{Op: drv.Str(sm["op"]), Auth: drv.Str(sm["auth"]), Media: drv.Str(sm["media"]), Debug: drv.Bool(sm["debug"])}
+		st := Step{Op: drv.Str(sm["op"]), Auth: drv.Str(sm["auth"]), Media: drv.Str(sm["media"]), Debug: drv.Bool(sm["debug"]), PatStatic: kvFrom(sm["pstatic"])}
 		for _, x := range drv.List(sm["args"]) {
 			m := drv.Map(x)
 			arg := Arg{Name: drv.Str(m["name"]), FileName: trace.Str(m["filename"]), Len: drv.Int(m["len"]), Seed: drv.Int(m["seed"]),
-				Src: drv.Str(m["src"]), Off: drv.Int(m["off"]), Body: trace.Str(m["body"])}
+				Src: drv.Str(m["src"]), Off: drv.Int(m["off"]), Fails: drv.Bool(m["fails"]), FailAt: drv.Int(m["failat"]), Body: trace.Str(m["body"])}
 			for _, v := range drv.List(m["vs"]) {
 				arg.Vs = append(arg.Vs, trace.Str(v))
 			}
 			st.Args = append(st.Args, arg)
 		}
 		r := drv.Map(sm["resp"])
-		st.Resp = Resp{Mode: drv.Str(r["mode"]), Code: drv.Int(r["code"]), Len: drv.Int(r["len"]), Seed: drv.Int(r["seed"]), None: drv.Bool(r["none"])}
+		st.Resp = Resp{Mode: drv.Str(r["mode"]), Code: drv.Int(r["code"]), Len: drv.Int(r["len"]), Seed: drv.Int(r["seed"]), None: drv.Bool(r["none"]),
+			Chunks: drv.Int(r["chunks"]), PauseUs: drv.Int(r["pause_us"])}
 		for _, h := range drv.List(r["hdrs"]) {
 			m := drv.Map(h)
 			hd := Hdr{K: drv.Str(m["k"])}
@@ -206,6 +254,14 @@ func caseFrom(d M) Case {
 			st.Resp.Hdrs = append(st.Resp.Hdrs, hd)
 		}
 		c.Steps = append(c.Steps, st)
+	}
+	c.BaseStatic, c.Reuse = kvFrom(d["bstatic"]), drv.Bool(d["reuse"])
+	c.Conc, c.Procs, c.Yield, c.Via = drv.Int(d["conc"]), drv.Int(d["procs"]), drv.Bool(d["yield"]), drv.Str(d["via"])
+	if b := drv.Map(d["batch"]); b != nil {
+		c.Batch = Batch{Op: drv.Str(b["op"]), Count: drv.Int(b["count"]), Seed: drv.Int(b["seed"])}
+	}
+	if c.Batch.Count > 0 {
+		c.Steps = batchSteps(c.API, c.Batch)
 	}
 	return c
 }
@@ -293,23 +349,108 @@ func (a API) doc() []byte {
 
 const secret = "s3cr3t token/+="
 
+// exchange is what the server side observed for one call.
 type exchange struct {
 	mu        sync.Mutex
+	idx       int
 	step      *Step
 	handledOp string
 	received  []M
 	handler   M
 	wirePath  string
 	wireQuery string
-	panicked  bool
 }
 
-var cur exchange
+func newExchange(idx int, st *Step) *exchange {
+	return &exchange{idx: idx, step: st, handler: M{"code": 0, "hdrs": []M{}, "body": ""}}
+}
+
+// Calls made one after the other are observed through `seq`.  Concurrent calls are kept apart by goroutine: the client
+// side registers the call of the submitting goroutine (clientSlots), the tagging transport writes its number into the
+// request (header X-C04-Call), the server's outermost handler maps the serving goroutine to that call (serverSlots) and
+// the operation handler, which gets no request, finds it there.
+var (
+	seqMu       sync.Mutex
+	seq         = newExchange(0, &Step{})
+	clientSlots sync.Map // goroutine id -> *exchange
+	serverSlots sync.Map // goroutine id -> *exchange
+	batchCalls  sync.Map // call number -> *exchange (of the running concurrent batch)
+)
+
+const callHeader = "X-C04-Call"
+
+func observed() *exchange {
+	if x, ok := serverSlots.Load(gid()); ok {
+		return x.(*exchange)
+	}
+	seqMu.Lock()
+	defer seqMu.Unlock()
+	return seq
+}
+
+// gid returns the id of the calling goroutine (first line of its stack trace: "goroutine 123 [running]:").
+func gid() int64 {
+	var buf [64]byte
+	b := buf[:goruntime.Stack(buf[:], false)]
+	var id int64
+	for _, ch := range b[len("goroutine "):] {
+		if ch < '0' || ch > '9' {
+			break
+		}
+		id = id*10 + int64(ch-'0')
+	}
+	return id
+}
+
+// tagTransport marks the requests of concurrent calls with their call number.
+type tagTransport struct{ base http.RoundTripper }
+
+func (t tagTransport) RoundTrip(req *http.Request) (*http.Response, error) {
+	if x, ok := clientSlots.Load(gid()); ok {
+		req = req.Clone(req.Context())
+		req.Header.Set(callHeader, strconv.Itoa(x.(*exchange).idx))
+	}
+	return t.base.RoundTrip(req)
+}
+
+// inproc serves the request in the calling goroutine: it is written out as HTTP/1.1, read back as a server does and given
+// to the active handler; no sockets, so that many calls are really served in parallel.
+type inproc struct{}
+
+func (inproc) RoundTrip(req *http.Request) (*http.Response, error) {
+	var wire bytes.Buffer
+	if err := req.Write(&wire); err != nil {
+		return nil, err
+	}
+	sreq, err := http.ReadRequest(bufio.NewReader(&wire))
+	if err != nil {
+		return nil, err
+	}
+	sreq.RemoteAddr = "127.0.0.1:1"
+	active.mu.Lock()
+	h := active.h
+	active.mu.Unlock()
+	rec := httptest.NewRecorder()
+	h.ServeHTTP(rec, sreq)
+	resp := rec.Result()
+	resp.Request = req
+	return resp, nil
+}
+
+var wireTransport = &http.Transport{MaxIdleConns: 512, MaxIdleConnsPerHost: 256}
+
+// yieldLogger turns every debug log call of the middleware into a scheduling point (concurrent batches only).
+type yieldLogger struct{}
+
+func (yieldLogger) Printf(string, ...interface{}) {}
+func (yieldLogger) Debugf(string, ...interface{}) { goruntime.Gosched() }
 
 type responder struct {
-	code int
-	hdrs []Hdr
-	body func(ct string) any
+	code   int
+	hdrs   []Hdr
+	body   func(ct string) any
+	chunks int // > 1: the body is written in that many pieces, flushed, with a pause in between
+	pause  time.Duration
 }
 
 func (r responder) WriteResponse(rw http.ResponseWriter, p runtime.Producer) {
@@ -320,9 +461,40 @@ func (r responder) WriteResponse(rw http.ResponseWriter, p runtime.Producer) {
 	}
 	payload := r.body(rw.Header().Get("Content-Type"))
 	rw.WriteHeader(r.code)
-	if payload != nil {
+	if payload == nil {
+		return
+	}
+	if r.chunks <= 1 {
 		if err := p.Produce(rw, payload); err != nil {
 			panic(err)
+		}
+		return
+	}
+	// a handler that delivers its body progressively
+	var buf bytes.Buffer
+	if err := p.Produce(&buf, payload); err != nil {
+		panic(err)
+	}
+	b := buf.Bytes()
+	size := (len(b) + r.chunks - 1) / r.chunks
+	if size == 0 {
+		size = 1
+	}
+	fl, _ := rw.(http.Flusher)
+	for len(b) > 0 {
+		n := size
+		if n > len(b) {
+			n = len(b)
+		}
+		if _, err := rw.Write(b[:n]); err != nil {
+			return
+		}
+		b = b[n:]
+		if fl != nil {
+			fl.Flush()
+		}
+		if len(b) > 0 && r.pause > 0 {
+			time.Sleep(r.pause)
 		}
 	}
 }
@@ -481,6 +653,7 @@ func buildFresh(a API, raw []byte) (*built, error) {
 			for _, k := range names {
 				rec = append(rec, M{"name": k, "vs": render(m[k])})
 			}
+			cur := observed()
 			cur.mu.Lock()
 			cur.handledOp, cur.received = o.ID, rec
 			r := cur.step.Resp
@@ -493,7 +666,7 @@ func buildFresh(a API, raw []byte) (*built, error) {
 				cur.mu.Unlock()
 				return p, nil
 			}
-			return responder{code: r.Code, hdrs: r.Hdrs, body: func(ct string) any {
+			return responder{code: r.Code, hdrs: r.Hdrs, chunks: r.Chunks, pause: time.Duration(r.PauseUs) * time.Microsecond, body: func(ct string) any {
 				var p any
 				cb := []byte{}
 				if !r.None {
@@ -512,6 +685,16 @@ func buildFresh(a API, raw []byte) (*built, error) {
 	}
 	inner := middleware.Serve(ld, api)
 	b := &built{handler: http.HandlerFunc(func(w http.ResponseWriter, r *http.Request) {
+		if tag := r.Header.Get(callHeader); tag != "" { // a call of a concurrent batch: this goroutine serves it
+			if n, err := strconv.Atoi(tag); err == nil {
+				if x, ok := batchCalls.Load(n); ok {
+					g := gid()
+					serverSlots.Store(g, x)
+					defer serverSlots.Delete(g)
+				}
+			}
+		}
+		cur := observed()
 		cur.mu.Lock()
 		cur.wirePath, cur.wireQuery = r.URL.EscapedPath(), r.URL.RawQuery
 		cur.mu.Unlock()
